@@ -70,6 +70,11 @@ CHECKS = {
    technique="TLA+ machine of fc's long-lived parse state over histories of top-level definitions (FoParseState.tla), model-checked with TLC with and without named deviations; histories of concrete packages are behaviours of that machine (TLC simulation) plus directed ones, replayed through one invocation of the real fc; per-definition Go declarations compared with the minimal history by TLC (FoParseStateTrace.tla)",
    text="The parse state (root scope bindings, inference and forward-declaration allocators with their limit, temporaries, scope depth, file cursor) is a machine whose invariants - fresh per-definition context, names denote top-level definitions rather than leaked locals, no spurious allocator exhaustion - are model-checked over all histories of an abstract package and shown non-vacuous by four deviations (thorough). For concrete packages (records, unions, and-groups with forward references, generics, package_info, top-level variables, local names colliding with unrelated top-level names, fillers exceeding the allocator limit over a run) TLC-simulated and directed histories (minimal, reordered, dropped, inserted, cut into 2-3 files, package_info in a leading .foi) are transpiled by the real binary; each definition's Go declarations, temporaries renumbered, must equal those of its minimal history, and exactly gen_X.go per X.fo must be written.",
    note="Trusted: go/printer text of declarations found by name; the hand-written package corpus and its dependency relation; histories are sampled (seeded), not exhaustive; the white-box trace of the parse state planned in the design (root-step hook) is not built: the binding is black-box."),
+ "C06": dict(
+   category="model_checking", design_ref="4.6", engine="FoLayout",
+   technique="TLA+ model of the offside rule on indentation structure (FoLayout.tla: rendering of trees under increment vectors and noise, block reconstruction as a stack machine; TLC checks reconstruction and the dedent converse for all trees up to 5 items); layout vectors for concrete documents generated by TLC (FoLayoutCases.tla: all single-point deviations, seeded simulation of full layouts), rendered, transpiled by the real fc and compared by TLC (FoLayoutTrace.tla)",
+   text="TLC checks that the offside stack machine recovers every tree (<= 5 items, all increment vectors over {1,2,4}, with blank/comment lines at arbitrary columns) and that a last line moved to a smaller column leaves its block. Concrete layout documents (49-115 decision points: indent string of every block incl. tabs, blank lines, line/block/multi-line/starred comments before and after items, if on one line or several, right-hand side / function body / arm body on the same or next line, arms at the match column or deeper, line breaks before |>) are rendered under every single-point deviation and under seeded random full layouts; the real fc must emit the canonical layout's bytes. Dedent cases must be accepted and give the bytes of the regrouped document (and different bytes than before the dedent).",
+   note="Trusted: the renderer (it only makes the choices the property names; uniform indent string within a block); layouts are sampled beyond the single-point family; the model covers indentation structure, not the token-level column arithmetic of tkzNext."),
 }
 
 def cmd(pid, tier):
